@@ -167,6 +167,13 @@ func body(r *rand.Rand, root walletdb.ReadWriteBucket, m *mb, readonly bool, log
 			if ok && len(want) == 0 && len(got) != 0 {
 				return fmt.Sprintf("get-value|Get(%x) = %x, model empty", k, got)
 			}
+			// nil means "no such key": a key that holds an empty value is not absent
+			if ok && len(want) == 0 && got == nil {
+				return fmt.Sprintf("get-value|Get(%x) = nil (no such key) although the key holds an empty value", k)
+			}
+			if ok && len(want) == 0 {
+				stats["gets-of-empty-values"]++
+			}
 			if !ok && got != nil {
 				return fmt.Sprintf("get-phantom|Get(%x) = %x, model has no such key", k, got)
 			}
